@@ -13,3 +13,8 @@ def check(reg, tier):
     pykernel.dll_call_kernel(reg, PROP)
     pykernel.kernel_Fq_Iq(reg, PROP)
     kernel_c.kernel_contracts(reg, PROP, tier)
+    from contracts import details_rt
+    details_rt.run(reg, PROP)
+    reg.extra["bounded_note"] = ("make_kernel_args/make_details: bounded run-time contract over every "
+                                 "(builtin model, dispersible parameter) x {several, single, empty} mesh; "
+                                 "never counted as proved")
